@@ -280,6 +280,10 @@ pub mod statement;
 
 pub(crate) mod utils;
 
+#[cfg(scylla_verif)]
+#[doc(hidden)]
+pub mod verif_hooks;
+
 pub(crate) mod parse_utils {
     pub(crate) use scylla_cql::utils::parse::{ParseErrorCause, ParseResult, ParserState};
 }
